@@ -7,8 +7,11 @@ bits).  Observation levels (DESIGN.md, note for C17-C19):
 
   P  plain Python on constants           - every pattern when width <= 10
   T  traced in `@std.concurrent`, results captured by a `@cohdl.pyeval` probe
-  S  structural only for now: the round-trip entity (`render_sim_entity`) must compile;
-     its simulation is plugged in later (shard kind "sim").
+  S  simulated emitted logic (cv.vhdl): the round-trip entity of `render_sim_entity` is compiled,
+     analysed and simulated over the same pattern list as level P: o1 == i and every leaf
+     output == its reference slice; BitField entity: field reads r<k>, and w<k> = copy of i with
+     field k overwritten by input v<k>.  A finding at S carries the level name "S!=P" / "S!=T"
+     when that level had the right value for the same pattern, plain "S" otherwise.
 
 Laws, for a type T of reference width w and a pattern b:
   count      count_bits(T) == w == count_bits(instance)
@@ -39,7 +42,7 @@ PROPERTY = "C17"
 TECHNIQUE = (
     "property-based testing: Hypothesis-generated type compositions (plus an enumerated catalogue of depth<=2 "
     "compositions) x exhaustive/corner/drawn bit patterns against an independent bit-layout reference model; "
-    "round-trip laws; three observation levels"
+    "round-trip laws; three observation levels (plain Python, traced constants, simulated emitted VHDL)"
 )
 RULE = (
     "case = TypeSpec of composite depth <= 3 over Bit | bool | bv/u/s[1..5] | cohdl.Array | std.Array | "
@@ -56,7 +59,11 @@ ASSUMPTIONS = [
     "Serialized[T] holds to_bits(T) (its own API from_raw/bits/value is used, it has no _to_bits_ protocol)",
     "plain-Python level: a Signal assigned with <<= outside a context takes the value immediately (used only to "
     "observe BitField writes)",
-    "level S is structural for now (the round-trip entity compiles); simulated values are added by a later shard",
+    "level S: cv.vhdl is the trusted simulator; static errors of the emitted VHDL are blocked_by_static (owned by C06), "
+    "constructs outside its subset are blocked; a VHDL run-time error or an undefined ('U'/'X') output for a defined "
+    "input is a violation with its own signature",
+    "levels T and S are sampled (a third / two thirds of the generated types with <= 30/40 leaf members, an eighth / "
+    "a quarter of the catalogue, every BitField) because one traced compile costs 0.3-5 s; level P runs on every case",
     "a cohdl exception at any step is `rejected` for that step, never a violation",
 ]
 LEVEL = "exploration"
@@ -597,6 +604,8 @@ def _blame(spec, out):
             # wrong leaf / bit (no per-child re-compilation)
             if sig["level"].startswith("S!="):
                 node = "emitted"  # another level is right on the same pattern: not a property of the type
+            elif sig["level"] == "T":
+                node = "traced"  # plain Python is right in this direction: the tracer's evaluation differs
             else:
                 parts = str(sig.get("where", "")).split("/")
                 node = "in:" + (parts[-2] if len(parts) >= 2 else spec["k"])
